@@ -75,6 +75,37 @@ func c02Call(fset *token.FileSet, c *ast.CallExpr) string {
 
 const c02NoCall = `("", [])`
 
+// a condition that is a local boolean defined once as `x := a || b` (or &&, !) is printed as its definition
+var c02CondDefs = map[string]string{}
+
+func c02CollectCondDefs(fset *token.FileSet, body *ast.BlockStmt) {
+	c02CondDefs = map[string]string{}
+	ast.Inspect(body, func(n ast.Node) bool {
+		as, ok := n.(*ast.AssignStmt)
+		if !ok || as.Tok != token.DEFINE || len(as.Lhs) != 1 || len(as.Rhs) != 1 {
+			return true
+		}
+		id, ok := as.Lhs[0].(*ast.Ident)
+		if !ok {
+			return true
+		}
+		switch as.Rhs[0].(type) {
+		case *ast.BinaryExpr, *ast.UnaryExpr, *ast.ParenExpr:
+			c02CondDefs[id.Name] = c02Src(fset, as.Rhs[0])
+		}
+		return true
+	})
+}
+
+func c02Cond(fset *token.FileSet, e ast.Expr) string {
+	if id, ok := e.(*ast.Ident); ok {
+		if d, ok := c02CondDefs[id.Name]; ok {
+			return d
+		}
+	}
+	return c02Src(fset, e)
+}
+
 // rows: walk a block; remember the last call assigned to `patch`; emit a row at `return patch, T, err`.
 func c02Rows(fset *token.FileSet, stmts []ast.Stmt, conds []string, last string, out *[]c02Row) {
 	for _, s := range stmts {
@@ -94,7 +125,7 @@ func c02Rows(fset *token.FileSet, stmts []ast.Stmt, conds []string, last string,
 				}
 			}
 		case *ast.IfStmt:
-			c := c02Src(fset, x.Cond)
+			c := c02Cond(fset, x.Cond)
 			c02Rows(fset, x.Body.List, append(append([]string{}, conds...), c), last, out)
 			if x.Else != nil {
 				if b, ok := x.Else.(*ast.BlockStmt); ok {
@@ -164,6 +195,7 @@ func genC02Patch(repo string) (string, error) {
 	b.WriteString("Definition current_obj_source : string * list string := " + liveSrc + ".\n\n")
 
 	var rows []c02Row
+	c02CollectCondDefs(fset, cp.Body)
 	c02Rows(fset, cp.Body.List, nil, c02NoCall, &rows)
 	it := make([]string, len(rows))
 	for i, r := range rows {
